@@ -33,7 +33,14 @@ fn embedded(input: Vec<u8>) -> J {
     let i2 = input.clone();
     let mut r = call(move || csl::TransactionOutput::from_bytes(i2)).to_json(|o| {
         let a = o.address();
-        obj(vec![("kind", json!(kind_of(&a))), ("addr_bytes", jbytes(&a.to_bytes())), ("out_bytes", call_total(|| o.to_bytes()).to_json(|b| obj(vec![("b", jbytes(&b))])))])
+        let mut m = obj(vec![("kind", json!(kind_of(&a))), ("addr_bytes", jbytes(&a.to_bytes())), ("out_bytes", call_total(|| o.to_bytes()).to_json(|b| obj(vec![("b", jbytes(&b))])))]);
+        // the text form the library itself gives this (possibly malformed) address, handed to the STRICT Bech32 parser
+        if let Outcome::Ok(t) = call(|| a.to_bech32(None)) {
+            let t2 = t.clone();
+            m.insert("strict_bech32".into(), call(move || csl::Address::from_bech32(&t2)).to_json(|x| obj(vec![("bytes", jbytes(&x.to_bytes())), ("kind", json!(kind_of(&x)))])));
+            m.insert("bech32_prefix".into(), jbytes(t.split('1').next().unwrap_or("").as_bytes()));
+        }
+        m
     });
     r["in_bytes"] = jbytes(&input);
     r
